@@ -32,7 +32,7 @@ def _is_decrement(value, cont) -> bool:
 
 def check(prog, rep, tier):
     rep.extra["explanation"] = EXPL
-    rep.rule("C16.cell-store-bounded", "every element store into a typed counter array stays inside the typecode range", floor=10)
+    rep.rule("C16.cell-store-bounded", "every element store into a typed counter array stays inside the typecode range", floor=5)
     rep.rule("C16.total-bounded", "the element total left by a mutator lies in the 64-bit range of its footer slot", floor=6)
     rep.rule("C16.pinned-not-decremented", "a counting-Bloom cell is decremented only where its interval excludes the limit", floor=1)
     rep.assume("num_els >= 1 (the property's quantifier: amounts 1 .. beyond 2^64)")
